@@ -16,6 +16,7 @@ func init() {
 	props["C07"] = runC07
 	replayers["C07"] = func(c *ctx, a []string) {
 		switch {
+		case c07sidReplay(c, a):
 		case len(a) == 2 && a[0] == "ids":
 			c07ids(c, strings.Split(a[1], ","))
 		case len(a) >= 2 && a[0] == "hist":
@@ -203,6 +204,8 @@ func runC07(c *ctx) {
 		}
 		c07ids(c, links)
 	}
+	// server ids of assign-backend-server-id with constructed hash collisions (c07ids.go)
+	runC07Sid(c)
 	// histories with everything that creates references: auth, passthrough, tcp services, missing objects
 	n := 120
 	if c.thorough() {
